@@ -390,6 +390,13 @@ func zzNewSpecRig(r *zzRig, startValue []byte) *zzSpecRig {
 }
 
 // the honest prefix as a list of inputs (nil = round timeout), so that it can be fed to several instances
+// zzLoop stands for "the operator's own latest broadcast comes back to it" (a node receives its own messages
+// from the network like everybody else's).
+var zzLoop = &specqbft.SignedMessage{}
+
+// (kinds 8 and 9 of the differential prefixes)
+//  8 timed out once from the fresh state, own round-change looped back, one honest round-change for round 3 received
+//  9 prepared in round 1, then two consecutive timeouts with the own round-changes looped back (round 3, still locked)
 func (r *zzRig) prefixInputs(kind int, value []byte, ownFirstBroadcast *specqbft.SignedMessage) []*specqbft.SignedMessage {
 	var in []*specqbft.SignedMessage
 	if kind == 0 {
@@ -397,6 +404,13 @@ func (r *zzRig) prefixInputs(kind int, value []byte, ownFirstBroadcast *specqbft
 	}
 	if kind == 6 {
 		return append(in, nil)
+	}
+	if kind == 8 {
+		return append(in, nil, zzLoop, zzHonest(r.others()[0], r.msg(specqbft.RoundChangeMsgType, 3, [32]byte{}), nil))
+	}
+	if kind == 9 {
+		in = r.prefixInputs(3, value, ownFirstBroadcast)
+		return append(in, nil, zzLoop, nil, zzLoop)
 	}
 	root, _ := zzHashDataRoot(value)
 	leader := zzLeader(r.share, r.height, 1)
@@ -524,13 +538,17 @@ func ZZHarnessDiff() {
 	if p := int(zzParam("PREFIX")); p > 0 {
 		kind = p - 1
 	} else {
-		kind = zzChoose("prefix", 8)
+		kind = zzChoose("prefix", 10)
 	}
 	var first *specqbft.SignedMessage
 	if len(a.net.msgs) > 0 {
 		first = a.net.msgs[0]
 	}
 	for _, in := range a.prefixInputs(kind, value, first) {
+		if in == zzLoop {
+			zzAssume(len(a.net.msgs) > 0)
+			in = a.net.msgs[len(a.net.msgs)-1]
+		}
 		if in == nil {
 			ea := a.inst.UponRoundTimeout(a.lg)
 			eb := b.inst.UponRoundTimeout()
